@@ -7,7 +7,7 @@
    hash / parent, unrecoverable signatures, first or last in the certificate).  The property invariants
    (Accept => Quorum, Quorum /\\ NoForeign => Accept, every certificate the counter can emit is accepted
    and is a quorum) are checked on every case and the cases are exported.  spec/MC_CertCount.tla walks
-   registry sizes 0..130 and exports vote-count boundary cases (Required-1, Required, Required+1, with a
+   registry sizes 0..150 and exports vote-count boundary cases (Required-1, Required, Required+1, with a
    deviating vote) for registries too large to enumerate as shapes.
 2. harness/cmd/d_cert rebuilds every case with REAL keys on the real code: IdentityStateDB ->
    ValidatorsCache.Load, signed votes, FullBlockCert.Compress, the real committee draw, and
@@ -349,7 +349,7 @@ def main(ctx):
             f.write(json.dumps(c) + "\n")
 
     # 2. the real code
-    nrand, ndet = (600, 60) if quick else (4000, 400)
+    nrand, ndet = (400, 40) if quick else (4000, 400)
     trace = ctx.path("trace.ndjson")
     msg = run_driver(ctx, drv, ["-cases", fm, "-sized", fs, "-random", str(nrand), "-det", str(ndet), "-out", trace],
                      "running the exported, sized and random cases and the determinism scenarios")
@@ -384,7 +384,7 @@ def main(ctx):
         "exhaustive": False,
         "rule": "the bounded Cert model (%s: all validator-set shapes over %d identities x vote lists with one deviating vote) is checked exhaustively by TLC; "
                 "every case without a deviating vote and a seeded sample of the others (SampleMod in the cfg), and every "
-                "boundary case of the counting abstraction (registry sizes 0..130) rebuilt with real keys and run through the real "
+                "boundary case of the counting abstraction (registry sizes 0..150) rebuilt with real keys and run through the real "
                 "ValidatorsCache / Compress / ValidateBlockCert (nil cache, shared cache, on head) / AddVote / countVotes; plus %d seeded random "
                 "larger cases and %d committee-determinism observations; all judged by TLC against Trace_Cert"
                 % (cfg, 3 if quick else 4, nrand, ndets),
